@@ -41,6 +41,7 @@ def handle (line : String) : String :=
   | "macro" :: rest => handleMacro rest
   | "withmacro" :: rest => handleWithMacro rest
   | "span" :: rest => handleSpan rest
+  | "concat" :: rest => handleConcat rest
   | "makeargs" :: rest => handleMakeArgs rest
   | "builderr" :: rest => handleBuildErr rest
   | "getlines" :: rest => handleGetLines rest
